@@ -388,6 +388,8 @@ def make_case(prop, rng, tier, opts=None):
     case = {"layer": "B", "T": T, "nodes": g.nodes, "edges": g.edges, "order": order, "connect_order": corder,
             "random_seed": rng.randrange(1 << 30),
             "meta": {"prop": prop, "template": tmpl, "lattice": lat_name, "finite_input": finite, "t_input_end": t_in}}
+    if prop in ("C18", "C19", "C03") and not invalid and rng.random() < 0.25:
+        case["edge_report_at"] = rng.choice([T / 2, T / 4, min(T, t_in) / 2 if t_in > 0 else T / 3, 1.5])
     if invalid:
         case["meta"]["invalid"] = invalid
     if bad_index:
